@@ -63,10 +63,11 @@ func (a *application) start(mode gen.ApplicationMode, options gen.ApplicationOpt
 
 		pid, err := a.node.spawn(item.Factory, opts)
 		if err != nil {
-			a.group.Range(func(pid gen.PID, _ bool) bool {
+			// Kill may terminate the process right here and call a.terminate,
+			// which modifies a.group: do not do it while ranging over the group
+			for _, pid := range a.members() {
 				a.node.Kill(pid)
-				return true
-			})
+			}
 			atomic.StoreInt32(&a.state, int32(gen.ApplicationStateLoaded))
 			return err
 		}
@@ -120,19 +121,20 @@ func (a *application) stop(force bool, timeout time.Duration) error {
 	// update mode to prevent triggering 'permantent' mode
 	a.mode = gen.ApplicationModeTemporary
 
-	a.group.Range(func(pid gen.PID, _ bool) bool {
+	if force {
+		a.reason = gen.TerminateReasonKill
+	} else {
+		a.reason = gen.TerminateReasonShutdown
+	}
+
+	// Kill may terminate the process right here and call a.terminate,
+	// which modifies a.group: do not do it while ranging over the group
+	for _, pid := range a.members() {
 		if force {
 			a.node.Kill(pid)
 		} else {
 			a.node.SendExit(pid, gen.TerminateReasonShutdown)
 		}
-		return true
-	})
-
-	if force {
-		a.reason = gen.TerminateReasonKill
-	} else {
-		a.reason = gen.TerminateReasonShutdown
 	}
 
 	select {
@@ -223,6 +225,15 @@ func (a *application) terminate(pid gen.PID, reason error) {
 		return
 	}
 	a.registerAppRoute() // new state for the app
+}
+
+func (a *application) members() []gen.PID {
+	pids := []gen.PID{}
+	a.group.Range(func(pid gen.PID, _ bool) bool {
+		pids = append(pids, pid)
+		return true
+	})
+	return pids
 }
 
 func (a *application) info() gen.ApplicationInfo {
